@@ -7,7 +7,6 @@ compares names as code-point lists, not through str.__lt__.
 """
 from __future__ import annotations
 
-import io
 import json
 import os
 import re
@@ -658,7 +657,6 @@ class Prop:
                     if n.children:
                         return f"file-with-children: {where}/{e.name!r}"
             want = [x[:4] for x in exp]
-            key = lambda x: (cps(x[0]), x[1:])  # noqa: E731
             if sorted(got, key=lambda x: (cps(x[0]), x[1], x[2] or 0, x[3] or (0, 0))) != \
                     sorted(want, key=lambda x: (cps(x[0]), x[1], x[2] or 0, x[3] or (0, 0))):
                 return f"mirror: folder {where!r}: nodes {got!r} but the directory holds {want!r}"
